@@ -132,8 +132,52 @@ def main_padsplit(cases):
     return out
 
 
+def main_avgconv(cases):
+    """[h, w, c, k, stride, uint8]: one AVERAGE_POOL_2D with a k x k window and that stride; what convert_avg_pool_to_conv2d
+    makes of it: type, weights shape, whether all window positions carry the same plane, that plane (row = input channel),
+    the weights' scale as float32 hex, the rounding mode"""
+    import numpy as np
+    from ethosu.vela import model_reader
+    from ethosu.vela.architecture_features import Accelerator, create_default_arch
+    from ethosu.vela.operation import Op
+    from ethosu.vela.tflite_graph_optimiser import convert_avg_pool_to_conv2d
+    arch = create_default_arch(Accelerator.Ethos_U55_128)
+    out = []
+    tmp = tempfile.mkdtemp(prefix="rw_", dir=os.environ.get("VERIF_TMP"))
+    for i, case in enumerate(cases):
+        h, w, c, k, st, u8 = case
+        rng = random.Random(str(case))
+        net = netgen.Net("avgconv")
+        x = net.input([1, h, w, c], "uint8" if u8 else "int8", 0.05, 3 if not u8 else 120)
+        y = netgen.pool(net, rng, x, "AVERAGE_POOL_2D", (k, k), (st, st), "VALID")
+        net.output(y)
+        path = os.path.join(tmp, "a%d.tflite" % i)
+        open(path, "wb").write(net.build())
+        nng, _ = model_reader.read_model(path, model_reader.ModelReaderOptions())
+        os.remove(path)
+        op = [o for o in nng.subgraphs[0].get_all_ops() if o.type == Op.AvgPool][0]
+        op.run_on_npu = True
+        op.set_ifm_ofm_shapes()
+        res = convert_avg_pool_to_conv2d(op, arch, nng)
+        if res.type != Op.Conv2DBias:
+            out.append({"converted": 0})
+            continue
+        wv = np.asarray(res.weights.values)
+        same = bool(all((wv[a, b] == wv[0, 0]).all() for a in range(wv.shape[0]) for b in range(wv.shape[1])))
+        out.append({"converted": 1, "shape": [int(v) for v in wv.shape], "same_plane_everywhere": same,
+                    "plane": [int(v) for v in wv[0, 0].reshape(-1)],
+                    "scale": float(np.float32(res.weights.quantization.scale_f32)).hex(),
+                    "zero_point": int(np.asarray(res.weights.quantization.zero_point).reshape(-1)[0]),
+                    "rounding": str(res.rounding_mode)})
+    os.rmdir(tmp)
+    return out
+
+
 def main():
     cases = json.load(open(sys.argv[1]))
+    if len(sys.argv) > 3 and sys.argv[3] == "avgconv":
+        json.dump(main_avgconv(cases), open(sys.argv[2], "w"))
+        return
     if len(sys.argv) > 3 and sys.argv[3] == "padsplit":
         json.dump(main_padsplit(cases), open(sys.argv[2], "w"))
         return
